@@ -918,6 +918,25 @@ Proof. vm_compute. split; reflexivity. Qed.
 
 Definition required_first {V} (fs : list (fld V)) : bool := order_ok false fs.
 
+(* ---------- infer_type_annotation_from_default ---------- *)
+(* the regenerated head of the function types a bool / int / float / str default as exactly its own builtin type *)
+Lemma gen_infer_scalar : forall d t, type_of d = Some t -> infer_scalar (f_infer facts_gen) d = Some t.
+Proof. intros d t. destruct d; cbn [type_of]; intros H; try discriminate; injection H as <-; vm_compute; reflexivity. Qed.
+Lemma gen_infer_nonscalar : forall d, type_of d = None -> infer_scalar (f_infer facts_gen) d = None.
+Proof. intros d. destruct d; cbn [type_of]; intros H; try discriminate; vm_compute; reflexivity. Qed.
+
+Theorem inferred_is_builtin_type : forall d, infer (f_infer facts_gen) d = spec_ity d.
+Proof.
+  fix IH 1. intros d. destruct d as [| | | | l |].
+  - cbn [infer]. rewrite (gen_infer_scalar DBool TBool eq_refl). reflexivity.
+  - cbn [infer]. rewrite (gen_infer_scalar DInt TInt eq_refl). reflexivity.
+  - cbn [infer]. rewrite (gen_infer_scalar DFloat TFloat eq_refl). reflexivity.
+  - cbn [infer]. rewrite (gen_infer_scalar DStr TStr eq_refl). reflexivity.
+  - cbn [infer spec_ity]. rewrite (gen_infer_nonscalar (DTuple l) eq_refl). f_equal.
+    induction l as [|x r IHl]; [reflexivity|]. cbn [map]. f_equal; [apply IH | exact IHl].
+  - cbn [infer]. rewrite (gen_infer_nonscalar DOther eq_refl). reflexivity.
+Qed.
+
 (* ---------- main ---------- *)
 Definition main_statement {V} (s : sig V) (vals : string -> V) : Prop :=
   let c := main_call facts_gen s vals [] [] in
